@@ -670,6 +670,7 @@ pub fn c03clock() -> bool {
 pub fn run(id: &str) -> Option<bool> {
     Some(match id {
         "d3" => d3(),
+        "c08foreign" => super::witness_pm::c08foreign(),
         "c03remote" => c03remote(),
         "d6" => d6(),
         "c12" => c12(),
